@@ -1,6 +1,7 @@
 package ordabs
 
 import (
+	"fmt"
 	"go/ast"
 	"go/types"
 	"sort"
@@ -145,6 +146,19 @@ func (in *Interp) InstallErrorStubs() {
 	in.Stubs["errors.New"] = func(in *Interp, _ Value, args []Value) ([]Value, error) {
 		s, _ := args[0].(string)
 		return []Value{ErrVal{Tag: s}}, nil
+	}
+	in.Stubs["fmt.Sprintf"] = func(in *Interp, _ Value, args []Value) ([]Value, error) {
+		format, _ := args[0].(string)
+		var hs []any
+		for _, a := range args[1:] {
+			switch x := a.(type) {
+			case int64, string, bool:
+				hs = append(hs, x)
+			default:
+				hs = append(hs, "?")
+			}
+		}
+		return []Value{fmt.Sprintf(format, hs...)}, nil
 	}
 	in.Stubs["fmt.Errorf"] = func(in *Interp, _ Value, args []Value) ([]Value, error) {
 		for _, a := range args[1:] {
